@@ -23,7 +23,7 @@ import (
 type latchEngine struct{}
 
 func (e *latchEngine) Rule() string {
-	return "C20: 2-6 concurrent requests on a Manager with 2-4 stripes; key sets of 0-4 keys with duplicates, the empty key and distinct keys colliding on a stripe; releases in random order (only such that at most one freed stripe has sleepers, which keeps the real wake-up order deterministic), a final drain that must finish every request, and a double-Release probe in a child process; non-trivial = some request blocked and later acquired after a release"
+	return "C20: 2-6 concurrent requests on a Manager with 2-4 stripes (55%) or 65..1024 stripes (45%, keys drawn from 3 stripe ids among 0, 1, 31..33, 63..65, 127, 128, 255, 256, 511, n-2, n-1 and random ones); key sets of 0-4 keys with duplicates, the empty key and distinct keys colliding on a stripe; releases in random order (only such that at most one freed stripe has sleepers, which keeps the real wake-up order deterministic), a final drain that must finish every request, and a double-Release probe in a child process; non-trivial = some request blocked and later acquired after a release"
 }
 
 // ---- key symbols -> concrete keys
@@ -138,7 +138,26 @@ func (s *sim) raceFree(t int) bool {
 }
 
 func (e *latchEngine) Gen(r *hlib.Rand, tier string) []string {
+	// small managers force blocking between requests; large ones (production uses 512 stripes) reach
+	// stripe ids on both sides of every boundary a dedupe / bitmap / table implementation may have
 	n := 2 + r.Intn(3)
+	var pool []int // stripe ids the keys of this case are drawn from
+	if r.Chance(45) {
+		n = hlib.Pick(r, []int{65, 66, 100, 128, 129, 512, 513, 1024})
+		cands := []int{0, 1, 31, 32, 33, 63, 64, 65, 127, 128, 255, 256, 511, n - 2, n - 1, r.Intn(n), r.Intn(n)}
+		for len(pool) < 3 {
+			if c := hlib.Pick(r, cands); c < n {
+				pool = append(pool, c)
+			}
+		}
+		if r.Chance(50) {
+			pool[0] = hlib.Pick(r, []int{63, 64, 65}) // the 64-bit word boundary, always in range here
+		}
+	} else {
+		for i := 0; i < n; i++ {
+			pool = append(pool, i)
+		}
+	}
 	ops := []string{fmt.Sprintf("latch.new %d", n)}
 	s := &sim{n: n, owner: map[int]int{}, queue: map[int][]int{}, thr: map[int]*simThread{}}
 	next := 0
@@ -165,7 +184,7 @@ func (e *latchEngine) Gen(r *hlib.Rand, tier string) []string {
 				case len(keys) > 0 && r.Chance(15):
 					keys = append(keys, keys[r.Intn(len(keys))]) // duplicate key
 				default:
-					keys = append(keys, fmt.Sprintf("%d%c", r.Intn(n), 'a'+rune(r.Intn(2))))
+					keys = append(keys, fmt.Sprintf("%d%c", hlib.Pick(r, pool), 'a'+rune(r.Intn(2))))
 				}
 			}
 			ks := "-"
